@@ -19,12 +19,15 @@ Definition write_read_ok (cf : cfg) (src : bytes) : option bool :=
   | _ => None
   end.
 
-Definition cfg_only_nowire_ungated : cfg := mkcfg false false false false true false false.
-Definition cfg_only_w_site_orig : cfg := mkcfg false false false false false true false.
-Definition cfg_only_w_prop_nosemi : cfg := mkcfg false false false false false false true.
+Definition cfg_only_nowire_ungated : cfg := mkcfg false false false false true false false false.
+Definition cfg_only_w_site_orig : cfg := mkcfg false false false false false true false false.
+Definition cfg_only_w_prop_nosemi : cfg := mkcfg false false false false false false true false.
+Definition cfg_only_version_repeat : cfg := mkcfg false false false false false false false true.
 
 Definition LefW_src_site : bytes := bs "SITE s CLASS CORE ; SIZE 1 BY 1 ; END s END LIBRARY".
 Definition LefW_src_nowire : bytes := bs "VERSION 5.8 ; NOWIREEXTENSIONATPIN ON ; END LIBRARY".
+Definition LefW_src_version_ncs : bytes := bs "VERSION 5.4 ; NAMESCASESENSITIVE ON ; VERSION 5.8 ;".
+Definition LefW_src_version_source : bytes := bs "VERSION 5.4 ; MACRO m SOURCE USER ; END m VERSION 5.8 ;".
 Definition LefW_src_prop : bytes := bs "MACRO m PROPERTY p v ; END m END LIBRARY".
 
 Lemma LefW_site_orig_refuted :
@@ -45,6 +48,15 @@ Proof. split; [|split]; vm_compute; reflexivity. Qed.
 (** `PROPERTY p v` without `;`: masked while the reader drops properties, visible as soon as it keeps them *)
 Lemma LefW_prop_nosemi_refuted :
   write_read_ok cfg_only_w_prop_nosemi LefW_src_prop = Some false
-  /\ write_read_ok (mkcfg false true false false false false true) LefW_src_prop = Some true
+  /\ write_read_ok (mkcfg false true false false false false true false) LefW_src_prop = Some true
   /\ write_read_ok cfg_fixed LefW_src_prop = Some true.
 Proof. split; [|split]; vm_compute; reflexivity. Qed.
+(** a second VERSION statement raises the version after a statement of LEF <= 5.4 was accepted: the writer
+    refuses the library; the repaired reader rejects the second VERSION statement *)
+Lemma LefW_version_repeat_refuted :
+  write_read_ok cfg_only_version_repeat LefW_src_version_ncs = Some false
+  /\ writer_refuses cfg_only_version_repeat LefW_src_version_ncs = true
+  /\ write_read_ok cfg_only_version_repeat LefW_src_version_source = Some false
+  /\ write_read_ok cfg_fixed LefW_src_version_ncs = None
+  /\ write_read_ok cfg_fixed LefW_src_version_source = None.
+Proof. split; [|split; [|split; [|split]]]; vm_compute; reflexivity. Qed.
